@@ -121,16 +121,29 @@ def normalDen (z : K) : K := ((z + lit 1179407 4) * z + lit 908401 3) * z + lit 
 def normalZ1 (z : K) : K :=
   z - ((lit 747395 5 * z + lit 494877 3) * z + lit 163772 2) / normalDen z
 
-/-- `Normal(alfa)` -/
-def normal (fuel : Nat) (alfa : K) : K :=
+/-- the upper tail of the start value `z` and the density there, as `Normal` obtains them.  `direct = false`: the
+    original `NormalDistribution(z, f, g); f = 1 - f;` (for z > 3.5 the subtraction keeps only the leading digits of the
+    tail — finding C17-F3); `direct = true`: the repaired `NormalDistribution(-z, f, g);`
+    (notes/proposed/C17-normal-upper-tail.diff).  Which one the tree contains: `StatanGen.normalUpperDirect`. -/
+def normalTail (direct : Bool) (fuel : Nat) (z : K) : K × K :=
+  if direct then normalDistribution fuel (-z)
+  else
+    let Dg := normalDistribution fuel z
+    (1 - Dg.1, Dg.2)
+
+/-- `Normal(alfa)` in either variant -/
+def normalWith (direct : Bool) (fuel : Nat) (alfa : K) : K :=
   let a := fold alfa
   let z := normalZ1 (normalZ0 a)
-  let Dg := normalDistribution fuel z
+  let Dg := normalTail direct fuel z
   let g := Dg.2
-  let f := 1 - Dg.1
+  let f := Dg.1
   let f := (f - a) / g
   let norm := (((((lit 75 2 * z * z + lit 875 3) * f + z) * z + lit 5 1) * f / Scalar.ofNat 3 + lit 5 1 * z) * f + 1) * f + z
   if lit 5 1 < alfa then -norm else norm
+
+/-- `Normal(alfa)` as the current tree has it -/
+def normal (fuel : Nat) (alfa : K) : K := normalWith StatanGen.normalUpperDirect fuel alfa
 
 /-- N ≤ 1: `cos(a)/sin(a)`, `a = M_PI/2*alfa` -/
 def student1 (alfa : K) : K :=
